@@ -1,5 +1,5 @@
 SPECIFICATION Spec
-CONSTANTS MaxV = 4
+CONSTANTS MaxV = 4 Below = 2 WidthOnly = FALSE
 INVARIANT TypeOK
 INVARIANT BuildableIffInside
 INVARIANT InsideBuilds
